@@ -211,6 +211,23 @@ def compare_iter(ctx, T, model, types, where):
     got = [((i, j), (a, b), None if v is None else uid_of(v)) for (i, j), (a, b), v in T]
     if got != exp:
         ctx.violation('pt:iter-order-or-coverage', '%s: iteration yields %s, expected %s' % (where, got[:8], exp[:8]))
+    # two iterations of one table alive at the same time (a nested loop over pairs of pairs; check() / a read inside a loop):
+    # each of them still visits every pair once, in order
+    ctx.hook('pt.nested_iteration')
+    exp_u = [((i, j), (types[i], types[j])) for i in range(n) for j in range(n) if i <= j]
+    outer, inner_ok = [], True
+    for (i, j), (a, b), v in T.iterpairs():
+        outer.append(((i, j), (a, b)))
+        inner = [((p, q), (c, d)) for (p, q), (c, d), w in T.iterpairs()]
+        inner_ok &= (inner == exp_u)
+        try:
+            T.check()
+        except ValueError:
+            pass
+        T[a, b]
+        len([1 for _ in T])
+    if outer != exp_u or not inner_ok:
+        ctx.violation('pt:iterpairs-order-or-coverage', '%s: with a second iteration / check() running inside the loop, iterpairs() visited %s (inner loops complete: %s), expected %s' % (where, outer[:8], inner_ok, exp_u[:8]))
 
 
 def compare_check(ctx, T, model, types, where):
@@ -366,6 +383,15 @@ def run_valuetable_builtin(ctx, types, rng):
             return
 
 
+class SeqVal(list):
+    """a list used as a table VALUE (carries the write id like Val)"""
+    uid = None
+
+
+class TupVal(tuple):
+    uid = None
+
+
 def run_valuetable(ctx, types, steps):
     T = ValueTable(list(types), 'monitored')
     model = {}
@@ -380,6 +406,10 @@ def run_valuetable(ctx, types, steps):
         elif op == 'setlist':
             v = Val(st[3])
             keys = [types[i] for i in st[1]]
+            if st[3] % 3 == 0:
+                # the value itself is a sequence (a legal value) that happens to be as long as the key list: it is THE value of every key
+                v = SeqVal([Val(st[3]) for _ in keys]) if st[3] % 2 else TupVal(Val(st[3]) for _ in keys)
+                v.uid = st[3]
             T[tuple(keys) if st[4] == 'tuple' else list(keys)] = v
             for a in keys:
                 model[a] = v
@@ -391,9 +421,9 @@ def run_valuetable(ctx, types, steps):
                     model[a] = v
         for a in types:
             got, exp = T[a], model.get(a)
-            if (exp is None) != (got is None) or (exp is not None and got.uid != exp.uid):
+            if (exp is None) != (got is None) or (exp is not None and (getattr(got, 'uid', 'no-uid') != exp.uid or type(got) is not type(exp))):
                 ctx.violation('vt:wrong-value', '%s: type %r reads %r, expected write #%s' % (where, a, got, None if exp is None else exp.uid))
-        got = [(i, t, None if v is None else v.uid) for i, t, v in T]
+        got = [(i, t, None if v is None else getattr(v, 'uid', 'no-uid')) for i, t, v in T]
         exp = [(i, t, None if model.get(t) is None else model[t].uid) for i, t in enumerate(types)]
         if got != exp:
             ctx.violation('vt:iteration', '%s: iteration yields %s, expected %s' % (where, got, exp))
